@@ -834,6 +834,31 @@ func c12Collector(r *kit.Run, idx int64, rng *rand.Rand) {
 				checkIter()
 			}()
 		}
+		// resolvers: keep resolving while the adders work (a Resolve that
+		// overlaps an Add must not hide that Add from later Resolve calls);
+		// what one goroutine sees never shrinks
+		for k := 0; k < 1+readers/2; k++ {
+			rwg.Add(1)
+			go func() {
+				defer rwg.Done()
+				defer func() {
+					if p := recover(); p != nil {
+						note(fmt.Sprintf("panic in Resolve caller: %v", p))
+					}
+				}()
+				last := 0
+				for spin := 0; !addersDone.Load(); spin++ {
+					res := ec.Resolve()
+					if spin%8 == 0 && res != nil {
+						if n := len(ers.Unwind(res)); n < last {
+							note(fmt.Sprintf("successive Resolve() calls of one goroutine list %d and then %d errors", last, n))
+						} else {
+							last = n
+						}
+					}
+				}
+			}()
+		}
 		defer func() { addersDone.Store(true); rwg.Wait() }()
 		for g := 0; g < G; g++ {
 			wg.Add(1)
